@@ -32,7 +32,7 @@ func (m *Machine) goValue(a Iface, verb byte) (interface{}, bool) {
 	}
 	// error / Stringer take precedence for %v %s %q
 	if verb == 'v' || verb == 's' || verb == 'q' {
-		if fn := m.prog.LookupMethod(a.T, nil, "Error"); fn != nil && fn.Signature.Params().Len() == 0 {
+		if fn := m.lookupMethod(a.T, "Error"); fn != nil && fn.Signature.Params().Len() == 0 {
 			if p, ok := a.V.(Ptr); ok && p.L == nil {
 				return "<nil>", true
 			}
@@ -42,7 +42,7 @@ func (m *Machine) goValue(a Iface, verb byte) (interface{}, bool) {
 			}
 			return nil, false
 		}
-		if fn := m.prog.LookupMethod(a.T, nil, "String"); fn != nil && fn.Signature.Params().Len() == 0 && fn.Signature.Results().Len() == 1 {
+		if fn := m.lookupMethod(a.T, "String"); fn != nil && fn.Signature.Params().Len() == 0 && fn.Signature.Results().Len() == 1 {
 			if p, ok := a.V.(Ptr); ok && p.L == nil {
 				return "<nil>", true
 			}
@@ -173,7 +173,9 @@ func (m *Machine) symFormat(a Iface, verb byte, spec string) []*sym.Term {
 			}
 		case 'c':
 			if x.W == 8 {
-				m.check(m.ctx.ULT(x, m.ctx.BV(8, 0x80)), "unsupported", "%c of non-ASCII symbolic byte")
+				if !m.lenientFmt {
+					m.check(m.ctx.ULT(x, m.ctx.BV(8, 0x80)), "unsupported", "%c of non-ASCII symbolic byte")
+				}
 				return []*sym.Term{x}
 			}
 		}
@@ -207,7 +209,18 @@ func (m *Machine) realFmt(spec string, g interface{}) string {
 	return fmt.Sprintf(spec, g)
 }
 
-func (m *Machine) sprintf(format Str, argv Value) Str {
+func (m *Machine) sprintf(format Str, argv Value) (res Str) {
+	if m.lenientFmt {
+		defer func() {
+			if r := recover(); r != nil {
+				if _, ok := r.(*unsupportedErr); ok {
+					res = Str{S: "<fmt>"}
+					return
+				}
+				panic(r)
+			}
+		}()
+	}
 	if format.B != nil {
 		m.unsupported("fmt: symbolic format string")
 	}
@@ -259,7 +272,18 @@ func (m *Machine) sprintf(format Str, argv Value) Str {
 	return m.mkStr(out)
 }
 
-func (m *Machine) sprint(argv Value, ln bool) Str {
+func (m *Machine) sprint(argv Value, ln bool) (res Str) {
+	if m.lenientFmt {
+		defer func() {
+			if r := recover(); r != nil {
+				if _, ok := r.(*unsupportedErr); ok {
+					res = Str{S: "<fmt>"}
+					return
+				}
+				panic(r)
+			}
+		}()
+	}
 	args := m.argList(argv)
 	var out []*sym.Term
 	prevString := false
